@@ -33,7 +33,9 @@ def main():
     mod = importlib.import_module('harness.' + pid.lower())
     ctx = common.Ctx(pid, args.tier, seed)
     if args.replay:
-        sys.exit(mod.replay(ctx, args.replay))
+        if hasattr(mod, 'replay'):
+            sys.exit(mod.replay(ctx, args.replay))
+        sys.exit(common.generic_replay(args.replay))
     sys.exit(mod.check(ctx))
 
 
